@@ -1,9 +1,9 @@
 SPECIFICATION Spec
 CONSTANTS
-  Users = {"u1", "u2"}
+  Users = {"u1"}
   Provs = {"p1", "p2"}
   RecordHist = FALSE
-  MaxH = 6
+  MaxH = 5
   MaxFeeds = 1
   FeedNames = {"btc-stake"}
   Creators = {"u1"}
@@ -23,7 +23,7 @@ CONSTANTS
   DTs = {1, 301}
   EditTFs = {}
   EditCaps = {}
-  MaxCalls = 3
+  MaxCalls = 2
   Sends = {}
 VIEW View
 INVARIANTS
